@@ -14,7 +14,7 @@ BOUNDS = ("reference DAGs over 2-4 id'd sibling elements built from {absolute re
           "group clipped by a clip path that follows the parent, clip path as a node of its own with a group clipped by it, and a seeded sample (quick 300, thorough 4000 DAGs x 3-4 orders) over the systematic unary kinds "
           "shape {rect, circle, ellipse, box, point} x position form {|h |H |v |V, @loc, cxy@loc, xy-loc, edge, ~scalar on x/y, on x2/y2, on cx/cy, {{expression}}} x size form {wh, longhand, relative, dw/dh, r, rxy, rx+ry} x held-back-or-not, "
           "surround / inside containers of each shape, path data and phantom points referring to the parent}; every one of the n! sibling orders (sampled for the systematic kinds); size spelled wh or width/height, position spelled xy or x/y; positions k/2 in [-256,256], sizes integers in [0,64], "
-          "gaps k/2 in [-16,16]; connector templates: the paths reached from the seeded valuations (no exhaustive negation); '^' excluded as the property says")
+          "gaps k/2 in [-16,16]; connector templates: the paths reached from the seeded valuations (no exhaustive negation); '^' excluded as the property says; a two-parent shape (element, something placed against it, connector / surround of both) with phantom points as connector ends; node kinds whose size is copied from the parent with deltas / scaling at an absolute position, and whose transform alone needs the parent")
 ASSUMPTIONS = ["the dependency-ordered document (every element after the elements it refers to) defines the expected geometry; both documents run in one engine session over the same variables",
                "unsatisfiable references (unknown id, cycle, target without bounding box) are ground queries: no symbolic quantity involved"]
 
